@@ -119,6 +119,14 @@ def run(ctx):
     import endpoint_job
     endpoint_job.run_listener_subsets(ctx)
 
+    # ---- the lock discipline around the demultiplexer: a reload arriving while the QUIC multiplexer / a TCP accept task is
+    # in the middle of its reads (DemuxLocks.tla, schedules forced through sync points on a listening Core)
+    import h3conc_jobs
+    lk = h3conc_jobs.demux_locks_job(ctx)
+    states += lk["demux_locks_states"]
+    trans += lk["demux_locks_transitions"]
+    vectors += lk["demux_locks_schedules"]
+
     ev = sum(x["evaluations"] for x in ctx.harness_runs)
     nt = sum(x["distinct_nontrivial"] for x in ctx.harness_runs)
     tcp = sum(x["counters"].get("tcp_handshakes", 0) for x in ctx.harness_runs)
@@ -128,6 +136,7 @@ def run(ctx):
         "replayed_behaviours": vectors, "recorded_traces": accepted, "events_validated": events if accepted else 0,
         "tcp_accept_path_handshakes": tcp,
         "quic_handshake_points": quic_points,
+        "reload_lock_schedules": {k: lk[k] for k in ("demux_locks_schedules", "demux_locks_states", "demux_locks_rule")},
         "evaluations": ev, "distinct_nontrivial": nt,
         "rule": "every point TLC enumerates for Demux.tla (configuration x SNI x ALPN list; the answer SETS for the plain decision and for TCP are TLC's) is evaluated on the real TlsDemux::new/select; every configuration on TlsHostsSettings::validate; the TCP answers are compared on the real accept path (rustls ClientHello over loopback -> TlsListener::listen -> Core::on_new_tls_connection, configuration installed by reload_tls_hosts_settings; certificate shown and negotiated ALPN checked) for all points of the protocol slice (qprotos) and a seeded sample of the other slices. Non-trivial = any point other than 'SNI designates nothing -> refuse', distinct by (configuration, SNI, ALPN). Reload: threads select while a thread reloads valid/invalid/unloadable settings; the event trace (lock, swap, results under the read lock) is validated against Demux.tla by TLC.",
         "samples": samples + r["samples"][:1],
@@ -140,5 +149,6 @@ def run(ctx):
         "allowed_sni is honoured on main hosts only (as documented in the settings)",
         "the plain decision (tr = quic) is compared on TlsDemux::select for every point; the points that are QUIC connections (HTTP/3 enabled, h3 offered, ALPN lists of at most 2 tokens) are also replayed over real QUIC handshakes against Core::listen (c05q: served leaf certificate, channel by a probe request, credentials label from the forwarder call) - all of the protocol slice, a seeded sample of configurations of the host slices",
         "a selection observed under the read lock is attributed to the version installed by the last ReloadSwap event; both are emitted while the respective lock is held",
+        "reload lock schedules: " + "; ".join(lk["demux_locks_assumptions"]),
         "trusted: TLC, the TOML rendering of configurations in the harness, the doors verif::demux, rustls as the test client",
     ])
